@@ -1227,18 +1227,59 @@ class HostileWorld(MediaBase):
                 raise AssertionError("re-serialisation differs at byte %d" % next(
                     (i for i, (a, b) in enumerate(zip(again, pkt)) if a != b), min(len(again), len(pkt))))
             c = chunks[0]
+            # the same object changed in place and built again (as when a chunk is re-stamped, a parameter appended to
+            # a chunk already sent once, a gap block added): the packet carries the new field values - for every chunk
+            # class, every flag value and every payload length / padding case
+            names = ("flags", "params", "gaps", "duplicates", "cumulative_tsn", "advertised_rwnd", "streams", "initiate_tag",
+                     "outbound_streams", "inbound_streams", "initial_tsn", "tsn", "stream_id", "stream_seq", "protocol",
+                     "user_data")
+
+            def snapshot(x):
+                out = {}
+                for n in names:
+                    if hasattr(x, n):
+                        v = getattr(x, n)
+                        out[n] = [tuple(i) if isinstance(i, (list, tuple)) else i for i in v] if isinstance(v, list) else (
+                            bytes(v) if isinstance(v, (bytes, bytearray)) else v)
+                if "body" in vars(x):
+                    out["body"] = bytes(x.body)
+                return out
+            rb = lambda n: bytes(r.randrange(256) for _ in range(n))   # noqa: E731
+            c.flags = (c.flags ^ r.choice([1, 2, 4])) & 0xFF
             if isinstance(c, m.DataChunk):
-                # the same object changed and built again (as when a chunk is re-stamped): the packet carries the new
-                # field values, for every flag value and every payload length / padding case
-                c.flags = (c.flags ^ r.choice([1, 2, 4])) & 0xFF
                 c.stream_seq = (c.stream_seq + 1) & 0xFFFF
-                c.user_data = c.user_data + bytes(r.randrange(256) for _ in range(r.choice([0, 1, 2, 3])))
-                want = (c.flags, c.tsn, c.stream_id, c.stream_seq, c.protocol, bytes(c.user_data))
-                c2 = m.parse_packet(m.serialize_packet(sp, dp, vt, c))[3][0]
-                got = (c2.flags, c2.tsn, c2.stream_id, c2.stream_seq, c2.protocol, bytes(c2.user_data))
-                if got != want:
-                    raise AssertionError("a DATA chunk changed and built again parses back as %r, not %r" % (got[:5], want[:5]))
-                self.probes["chunks_changed_and_rebuilt"] += 1
+                c.user_data = c.user_data + rb(r.choice([0, 1, 2, 3]))
+            if isinstance(getattr(c, "params", None), list):
+                how = r.choice(["append", "append", "replace", "clear", "pop"])
+                if how == "append" or not c.params:
+                    c.params.append((r.choice([1, 7, 9, 13, 16, 0x8008, 0xC000]), rb(r.choice([0, 1, 2, 3, 4, 5, 8]))))
+                elif how == "replace":
+                    c.params[r.randrange(len(c.params))] = (r.choice([1, 7, 9, 13, 0x8008]), rb(r.choice([0, 1, 4, 6])))
+                elif how == "clear":
+                    c.params.clear()
+                else:
+                    c.params.pop()
+            for lst, make in (("gaps", lambda: (r.randrange(65536), r.randrange(65536))), ("duplicates", lambda: r.getrandbits(32)),
+                              ("streams", lambda: (r.randrange(65536), r.randrange(65536)))):
+                v = getattr(c, lst, None)
+                if isinstance(v, list):
+                    if v and r.random() < 0.3:
+                        v.pop(r.randrange(len(v)))
+                    else:
+                        v.append(make())
+            for n in ("cumulative_tsn", "initiate_tag", "initial_tsn", "advertised_rwnd"):
+                if hasattr(c, n) and r.random() < 0.5:
+                    setattr(c, n, (getattr(c, n) + r.choice([1, 0x10000, 0xFFFFFFFF])) & 0xFFFFFFFF)
+            if "body" in vars(c) and r.random() < 0.5:
+                c.body = bytes(c.body) + rb(r.choice([1, 2, 3, 4]))
+            want = snapshot(c)
+            c2 = m.parse_packet(m.serialize_packet(sp, dp, vt, c))[3][0]
+            got = snapshot(c2)
+            if got != want:
+                diff = [n for n in want if got.get(n) != want[n]]
+                raise AssertionError("a %s changed in place and built again parses back with other %s: %r, not %r" % (
+                    type(c).__name__, ",".join(diff), [got.get(n) for n in diff][:2], [want[n] for n in diff][:2]))
+            self.probes["chunks_changed_and_rebuilt"] += 1
         except Exception as exc:  # noqa
             self.violation("C08", "well-formed-packet-does-not-round-trip:chunk-type-%d:%s" % (pkt[12], type(exc).__name__),
                            "%s: %r" % (pkt.hex()[:120], exc))
